@@ -273,6 +273,16 @@ def raising_functions(prog, cg):
             if rn:
                 out[f.id] = (rn[0][2].get("ln"), (rn[0][2].get("text") or fmt(rn[0][0]))[:70])
                 break
+        if f.id in out:
+            continue
+        # range-checked standard accessors throw by contract (`at`, `optional::value`, `stoi` ...): a function that calls one raises, too
+        for bid, i, e in f.roots():
+            if f.id in out:
+                break
+            for n in walk(e["expr"]):
+                if n.get("k") == "call" and re.search(r"^std::(vector|deque|array|map|unordered_map|basic_string|basic_string_view)<.*>::at$|^std::(__cxx11::)?sto(i|l|ll|ul|ull|f|d|ld)$|^std::optional<.*>::value$", n.get("name") or ""):
+                    out[f.id] = (n.get("ln"), fmt(n)[:70])
+                    break
     return out
 
 
@@ -384,6 +394,168 @@ def rule_no_narrowing(ctx, rule, cls, what, minimum=1):
                           "%s is `%s` (%d bits) but %s() assigns it from `%s %s` (%d bits): %s" % (short(fld), mt, mb, f.name, qt, r["decl"][6:], qb, what), (f, ln),
                           why_ok="%s (%d) <- %s (%d)" % (mt, mb, qt, qb))
     ctx.need(rule, "integral members of %s assigned from integral parameters" % short(cls), n, minimum)
+
+
+def delegating_overload(prog, f):
+    """the sibling overload g when f does nothing but hand its own parameters to g - `R name(A&& a, B b) { name(a, b); return std::move(a); }`,
+    `void reset(std::nullptr_t) { reset(); }`: one call of a same-named function with another signature whose arguments are f's parameters
+    (each at most once, in order), optionally followed by returning the call's result or one of the parameters. Else None.
+    What the rules say about `name` they say about g; f adds a way to spell the call."""
+    if f is None or not f.has_cfg:
+        return None
+    roots = [e["expr"] for _, _, e in f.roots()]
+    if not 1 <= len(roots) <= 2 or len(f.reachable_blocks()) > 3:
+        return None
+    pn = [p0["name"] for p0 in f.params]
+
+    def plain(x):
+        x = ir.unwrap(x)
+        while isinstance(x, dict) and ((x.get("k") in ("cast", "construct") and (x.get("e") is not None or len(x.get("args", [])) == 1)) or
+                                       (x.get("k") == "call" and (x.get("name") or "") in ("std::move", "std::forward") and len(x.get("args", [])) == 1)):
+            x = ir.unwrap(x.get("e") if x.get("e") is not None else x["args"][0])
+        return x
+    first = roots[0]
+    call = plain(first.get("e")) if first.get("k") == "return" else plain(first)
+    if not (isinstance(call, dict) and call.get("k") == "call" and call.get("callee") and call["callee"] != f.id):
+        return None
+    g = prog.fn(call["callee"])
+    if g is None or g.qual != f.qual:
+        return None
+    if call.get("this") is not None and ir.unwrap(call["this"]).get("k") != "this":
+        return None
+    used = []
+    for a in call.get("args", []):
+        a = plain(a)
+        if not (isinstance(a, dict) and a.get("k") == "ref" and a.get("decl", "").startswith("param:") and a["decl"][6:] in pn):
+            return None
+        used.append(pn.index(a["decl"][6:]))
+    if used != sorted(set(used)):
+        return None
+    if len(roots) == 2:
+        r = roots[1]
+        if r.get("k") != "return":
+            return None
+        rv = plain(r.get("e")) if r.get("e") is not None else None
+        if rv is not None and not (isinstance(rv, dict) and ((rv.get("k") == "ref" and rv.get("decl", "").startswith("param:")) or (rv.get("k") == "un" and rv.get("op") == "*" and ir.unwrap(rv["e"]).get("k") == "this"))):
+            return None
+    return g
+
+
+def rule_every_argument_tokenised(ctx, rule, minimum=1):
+    """G-argv: in parse(argc, argv) an iteration of a loop that builds the token vector cannot come back to the loop head without
+    having appended a token: no element of argv is passed over. (Iterations that raise do not come back; what happens to the rest
+    after a `break` is the next loop's business and not judged here.)"""
+    from sa import cfg as _cfg
+    prog = ctx.prog
+    pa = prog.fn(PARSE_ARGV)
+    if not ctx.anchor(rule, PARSE_ARGV, pa is not None and pa.has_cfg):
+        return
+
+    def is_append(e):
+        for n in elem_calls(e):
+            if n.get("k") == "call" and short(n.get("name") or "") in ("push_back", "emplace_back", "emplace", "insert") and n.get("this") is not None:
+                t = (ir.unwrap(n["this"]).get("type") or "") if isinstance(ir.unwrap(n["this"]), dict) else ""
+                if "user_input" in t and "vector" in t:
+                    return True
+        return False
+    nloops = 0
+    for h, body in _cfg.loop_blocks(pa):
+        app = {b for b in body if any(is_append(e) for e in pa.elems(b))}
+        if not app:
+            continue
+        nloops += 1
+        # blocks of the body reachable from the head without executing an append; arriving at the head again = an element passed over
+        seen = set()
+        st = [to for to, _ in pa.succs(h) if to in body]
+        back = None
+        prev = {}
+        for x in st:
+            prev[x] = h
+        while st:
+            x = st.pop()
+            if x in seen or x in app:
+                continue
+            seen.add(x)
+            if pa.is_noreturn(x):
+                continue
+            for to, lab in pa.succs(x):
+                if to == h:
+                    back = x
+                elif to in body and to not in seen:
+                    prev.setdefault(to, x)
+                    st.append(to)
+        path = []
+        x = back
+        while x is not None and x != h and len(path) < 50:
+            path.append(x)
+            x = prev.get(x)
+        lns = [pa.term(b).get("ln") for b in reversed(path) if pa.term(b).get("cond") is not None]
+        ctx.check(back is None, rule, pa, "every-argument-becomes-a-token@%s" % (pa.term(h).get("ln") or h),
+                  "parse(argc, argv): an iteration of the loop that builds the token vector can return to the loop head (through B%s, decided at line(s) %s) without appending a token - "
+                  "that element of argv is passed over: it is reported nowhere, the positional limit never sees it, and an option waiting for its value takes the NEXT word instead"
+                  % ("->B".join(str(b) for b in reversed(path)), ", ".join(str(l) for l in lns if l)), (pa, lns[0] if lns and lns[0] else None),
+                  why_ok="every path from the loop head back to it passes an append to the token vector (%d appending block(s))" % len(app))
+    ctx.need(rule, "token-building loops in parse(argc, argv)", nloops, minimum)
+
+
+FOLDS = {"std::accumulate": 2, "std::reduce": 2, "std::inner_product": 3, "std::transform_reduce": 2, "std::partial_sum": None}
+
+
+def narrow_fold_start(prog, n):
+    """for a call of a std fold: (type spelling, bits) of its start value when that is an integral narrower than std::size_t - the
+    accumulator of std::accumulate has the TYPE OF THE START VALUE, whatever the step function takes and returns: every intermediate
+    result is converted back to it. None when the start value is as wide as std::size_t (or not integral)."""
+    if not (isinstance(n, dict) and n.get("k") == "call"):
+        return None
+    pos = FOLDS.get(n.get("name") or "")
+    args = n.get("args", [])
+    if pos is None or len(args) <= pos:
+        return None
+    a = ir.unwrap(args[pos])
+    while isinstance(a, dict) and a.get("k") == "cast" and not a.get("explicit") and a.get("ck") not in ("static", "functional", "cstyle"):
+        a = ir.unwrap(a["e"])
+    if not isinstance(a, dict):
+        return None
+    want = prog.size_t_bits if getattr(prog, "size_t_bits", None) else 64
+    if a.get("k") == "lit" and a.get("t") in ("int", "unsigned int", "short", "char", "bool"):
+        return (a["t"], 32 if "int" in a["t"] else 8)
+    b = a.get("bits")
+    if b and b < want:
+        return (a.get("type") or a.get("t") or "?", b)
+    return None
+
+
+def rule_fold_keeps_width(ctx, rule, scope, what, minimum=1):
+    """G-fold: in the functions selected by scope a std fold starts from a value as wide as std::size_t."""
+    prog = ctx.prog
+    nf = nfold = 0
+    seen = set()
+    for f in sorted(prog.fns.values(), key=lambda g: g.id):
+        if not f.has_cfg or not scope(f):
+            continue
+        nf += 1
+        for bid, i, e in f.roots():
+            for n in walk(e["expr"]):
+                if isinstance(n, dict) and n.get("k") == "call" and (n.get("name") or "") in FOLDS:
+                    key = (f.file, n.get("ln"), n.get("col"))
+                    if key in seen:
+                        continue
+                    seen.add(key)
+                    nfold += 1
+                    nar = narrow_fold_start(prog, n)
+                    ctx.check(nar is None, rule, f, "fold-start-as-wide-as-result:%s" % short(f.qual),
+                              "%s folds with %s starting from `%s` of type %s (%d bits): the accumulator has the type of the start value, so every "
+                              "intermediate result is cut to %d bits - %s" % (short(f.qual), n.get("name"), fmt(n["args"][FOLDS[n["name"]]]), nar[0] if nar else "", nar[1] if nar else 0, nar[1] if nar else 0, what),
+                              (f, n.get("ln")), why_ok="start value `%s`" % fmt(n["args"][FOLDS[n["name"]]]) if FOLDS.get(n["name"]) is not None and len(n.get("args", [])) > FOLDS[n["name"]] else "")
+    ctx.need(rule, "functions scanned for folds", nf, minimum)
+    g1, g2 = fx(ctx, "folds_narrow"), fx(ctx, "folds_wide")
+
+    def first_fold(g):
+        return next((n for _, _, e in g.roots() for n in walk(e["expr"]) if isinstance(n, dict) and n.get("k") == "call" and (n.get("name") or "") in FOLDS), None) if g else None
+    ctx.fixture(rule, "folds_narrow", g1 is not None and narrow_fold_start(prog, first_fold(g1)) is not None, True, "a fold starting from the int literal 0 recognised as narrow")
+    ctx.fixture(rule, "folds_wide", g2 is not None and narrow_fold_start(prog, first_fold(g2)) is None, True, "a fold starting from std::size_t{0} accepted")
+    if nf and not nfold:
+        ctx.ok(rule, "-", "fold-start-as-wide-as-result:none", "%d function(s) scanned, no std fold among them" % nf, "-")
 
 
 def rule_no_use_after_move(ctx, rule, scope, what, minimum=1):
@@ -627,14 +799,18 @@ def rule_no_move_from_member(ctx, rule, scope, what, minimum=1):
         nf += 1
         for bid, i, e in f.roots():
             for n in walk(e["expr"]):
-                if n.get("k") == "call" and (n.get("name") or "") == "std::move" and len(n.get("args", [])) == 1:
+                if n.get("k") == "call" and (n.get("name") or "") in ("std::move", "std::forward") and len(n.get("args", [])) == 1:
                     a = ir.unwrap(n["args"][0])
                     if isinstance(a, dict) and a.get("k") == "member" and not a.get("method") and isinstance(ir.unwrap(a.get("base")), dict) and ir.unwrap(a["base"]).get("k") == "this":
                         t = (a.get("type") or "")
+                        if n["name"] == "std::forward" and t.rstrip().endswith("&") and not t.rstrip().endswith("&&"):
+                            continue  # forwarding what an lvalue-reference member refers to as an lvalue
+                        # (std::forward<U>(member) with the member declared `U`: a move in every instantiation where U is not a reference -
+                        # the element type of an iterator that returns by value)
                         if t.rstrip().endswith("*") or re.fullmatch(r"(unsigned |signed )?(int|long|short|char|bool|std::size_t|size_t)", t.strip()):
                             continue  # moving a scalar is a copy
                         ctx.bad(rule, f, "member-moved-out:%s:%s" % (short(f.qual), short(a.get("field") or "?")),
-                                "%s hands its own member %s to std::move and can be called again on the same object: %s" % (short(f.qual), short(a.get("field") or "?"), what), (f, n.get("ln")))
+                                "%s hands its own member %s to std::move / std::forward and can be called again on the same object: %s" % (short(f.qual), short(a.get("field") or "?"), what), (f, n.get("ln")))
     ctx.need(rule, "re-callable member functions scanned for moved-out members", nf, minimum)
 
 
